@@ -144,7 +144,7 @@ func syCallPath(mi int, c int64) string {
 	}
 	return p
 }
-func syStreamKind(si int) int   { return (si % 6) / 2 }
+func syStreamKind(si int) int { return (si % 6) / 2 }
 func syStreamPath(si int) string {
 	return fmt.Sprintf("/%s/%c%d", sySvcNames[si/6], "CSB"[syStreamKind(si)], si%2)
 }
@@ -374,6 +374,8 @@ func (a syAct) coq() string {
 		return "SS2C"
 	case 'X':
 		return "SFailRead"
+	case 'A':
+		return "SFailRead"
 	case 'T':
 		return fmt.Sprintf("STick %d", a.N)
 	case 'B':
@@ -410,6 +412,9 @@ type syRig struct {
 	threads  []*syThread
 	streams  map[int]grpc.ClientStream
 	nextC    int64
+	srv      *goat.Server
+	linkA    *Link // an EARLIER connection of the same Server (doomed: its transport fails with calls in flight)
+	ccA      *goat.ClientConn
 	rvC2S    chan *Rpc // the two unbuffered channels of the rendezvous topology
 	rvS2C    chan *Rpc
 	rmsgs    map[int64]*wrapperspb.BytesValue // the caller's message object of each stream
@@ -449,6 +454,7 @@ func newSyRigOpt(topo int, byRef, lock, checkCtx bool) *syRig {
 	for _, sd := range syServiceDescs() {
 		srv.RegisterService(sd, r)
 	}
+	r.srv = srv
 	l := NewLink(byRef)
 	l.Auto = !lock
 	l.C.CheckCtx = checkCtx
@@ -613,6 +619,11 @@ func (r *syRig) unaryH(ctx context.Context, mi int, req []byte) ([]byte, bool, e
 	c := syTag(ctx, "sy-c")
 	if c < 0 && len(req) >= 9 && req[0] == syPlainMark {
 		c = int64(binary.BigEndian.Uint64(req[1:9])) // a plain call: linked by its payload
+	}
+	if c >= syDoomedBase {
+		// a call of the doomed connection: gated like any other, nothing recorded (its caller gets no reply)
+		r.gate(r.ugates, c)
+		return syMixM(mi, req), true, nil
 	}
 	r.hist.add(fmt.Sprintf("HUnS %s %s", coqZ(c), syTM(mi, req)))
 	r.gate(r.ugates, c)
@@ -790,6 +801,28 @@ func (r *syRig) invokeDead(n int64, how, mi int, req []byte) {
 	}
 }
 
+const syDoomedBase = 700000
+
+// addDoomedConn: a second connection A of the SAME Server, serialising or by reference, delivering at once, not tapped.
+// Its calls (invokeDoomed) reach their handlers, which park at their gates; then A's transport fails (action 'A') and
+// the handlers are released: whatever that does to the Server must not be felt by the other connection.
+func (r *syRig) addDoomedConn(byRef bool) {
+	l := NewLink(byRef)
+	l.Auto = true
+	r.linkA = l
+	r.eps = append(r.eps, l.C, l.S)
+	go r.srv.Serve(r.ctx, l.S)
+	r.ccA = goat.NewClientConn(l.C, "c0", "srv")
+}
+
+// invokeDoomed: a call on connection A; it ends with an error when A's transport fails; nothing is recorded unless
+// it succeeds after all
+func (r *syRig) invokeDoomed(n int64, mi int, req []byte) {
+	ctx := metadata.AppendToOutgoingContext(r.ctx, "sy-c", strconv.FormatInt(syDoomedBase+n, 10))
+	var out wrapperspb.BytesValue
+	r.ccA.Invoke(ctx, syUnaryPath(mi), &wrapperspb.BytesValue{Value: req}, &out)
+}
+
 // a reply object as a caller may hand it in: already holding something
 func syUsedReply() *wrapperspb.BytesValue {
 	return &wrapperspb.BytesValue{Value: []byte("stale reply of an earlier call")}
@@ -873,6 +906,8 @@ func (r *syRig) exec(th *syThread) {
 			th.in, th.out = &wrapperspb.BytesValue{}, syUsedReply()
 		}
 		switch {
+		case op.Dead == 3:
+			r.invokeDoomed(c, op.M%syNUnary, op.Pay)
 		case op.Dead != 0:
 			r.invokeDead(c, op.Dead, op.M%syNUnary, op.Pay)
 		case op.Plain:
@@ -1025,6 +1060,9 @@ func (r *syRig) do(a syAct) {
 		r.link.StepC2S()
 	case 'S':
 		r.link.StepS2C()
+	case 'A': // connection A of the same Server loses its transport (both directions)
+		r.linkA.C.FailRead(errInjected)
+		r.linkA.S.FailRead(errInjected)
 	case 'T': // the virtual clock advances (the scheduler sleeps: everything else is durably blocked, timers fire)
 		time.Sleep(time.Duration(a.N) * time.Millisecond)
 	case 'X': // the client's transport fails (after what it has queued)
@@ -1149,7 +1187,10 @@ func (r *syRig) runSchedule(choose func(step int, en []syAct) int, maxSteps int)
 		if i == -1 {
 			break
 		}
-		if i <= -5 { // the virtual clock advances: -5 six seconds, -6 one minute, -7 one hour
+		if i == -8 { // the transport of the doomed connection fails, on both sides
+			en = []syAct{{'A', 0}}
+			i = 0
+		} else if i <= -5 { // the virtual clock advances: -5 six seconds, -6 one minute, -7 one hour
 			en = []syAct{{'T', map[int]int64{-5: 6000, -6: 60000, -7: 3600000}[i]}}
 			i = 0
 		} else if i < -1 { // an environment action that is always enabled: -2 read failure, -3 / -4 block / unblock writes
